@@ -89,6 +89,15 @@ def main():
                 print('%s seed=%d exit=%d violations=%d %s' % (chk, seed, rc, len(viol), '; '.join(sigs[:2])[:200]))
                 if rc == 2:
                     print(err[-1500:])
+        prev_path = os.path.join(VERIF, 'seeded', a.id, 'meta.json')
+        if a.skip_confirm and os.path.exists(prev_path):
+            # refresh of an already confirmed seed: keep its description and its confirmation record
+            prev = json.load(open(prev_path))
+            for k in ('what', 'needs_to_manifest', 'strengthened', 'wave', 'written_by', 'detected_by_thorough'):
+                if k in prev:
+                    meta[k] = prev[k]
+            meta['ran'] = [r for r in prev.get('ran', []) if not r['cmd'].startswith('mc/run.py')] + meta['ran']
+            ok = prev.get('confirmed', ok)
         meta['detected_by'] = sorted(k for k, v in detected.items() if v and all(v))
         meta['missed_by'] = sorted(k for k, v in detected.items() if not (v and all(v)))
         meta['confirmed'] = ok
